@@ -2,6 +2,7 @@ import RosuModel.Model.SkillOps
 import RosuModel.Lemmas.AggregateField
 import Mathlib.Analysis.SpecialFunctions.Pow.Real
 import Mathlib.Analysis.SpecialFunctions.Exp
+import Mathlib.Analysis.SpecialFunctions.Trigonometric.Basic
 import Mathlib.Algebra.Order.Floor.Defs
 import Mathlib.Tactic.Linarith
 import Mathlib.Tactic.Positivity
@@ -41,6 +42,9 @@ noncomputable instance instFOpsReal : FOps ℝ where
   sqrt := Real.sqrt
   powf := Real.rpow
   exp := Real.exp
+  cos := Real.cos
+  isNormal a := decide (a ≠ 0)
+  ofInt n := (n : ℝ)
   signum a := if 0 ≤ a then 1 else -1
   storable a := decide (0 < a)
   isNonZero a := decide (a ≠ 0)
@@ -62,6 +66,10 @@ noncomputable def realCasts : Casts ℝ ℝ where
 @[simp] theorem r_neg (a : ℝ) : @Neg.neg ℝ FOps.toNeg a = -a := rfl
 @[simp] theorem r_lit (m : Nat) (s : Bool) (e : Nat) :
     @OfScientific.ofScientific ℝ FOps.toOfScientific m s e = (OfScientific.ofScientific m s e : ℝ) := rfl
+theorem r_zero : (@OfScientific.ofScientific ℝ FOps.toOfScientific 0 true 1) = 0 := by
+  rw [r_lit]; norm_num
+theorem r_one : (@OfScientific.ofScientific ℝ FOps.toOfScientific 10 true 1) = 1 := by
+  rw [r_lit]; norm_num
 @[simp] theorem r_lt (a b : ℝ) : (FOps.lt a b = true) ↔ a < b := by simp [FOps.lt]
 @[simp] theorem r_le (a b : ℝ) : (FOps.le a b = true) ↔ a ≤ b := by simp [FOps.le]
 @[simp] theorem r_beq (a b : ℝ) : (FOps.beq a b = true) ↔ a = b := by simp [FOps.beq]
@@ -72,6 +80,8 @@ noncomputable def realCasts : Casts ℝ ℝ where
 @[simp] theorem r_abs (a : ℝ) : FOps.abs a = |a| := rfl
 @[simp] theorem r_powf (a b : ℝ) : FOps.powf a b = a ^ b := rfl
 @[simp] theorem r_exp (a : ℝ) : FOps.exp a = Real.exp a := rfl
+@[simp] theorem r_cos (a : ℝ) : FOps.cos a = Real.cos a := rfl
+@[simp] theorem r_ofInt (n : Int) : (FOps.ofInt n : ℝ) = (n : ℝ) := rfl
 @[simp] theorem r_sqrt (a : ℝ) : FOps.sqrt a = Real.sqrt a := rfl
 @[simp] theorem r_storable (a : ℝ) : (FOps.storable a = true) ↔ 0 < a := by simp [FOps.storable]
 @[simp] theorem r_toF (x : ℝ) : realCasts.toF x = x := rfl
@@ -96,6 +106,19 @@ theorem pushCanon_of_nonneg {x : ℝ} (h : 0 ≤ x) : pushCanon x = x := by
     subst this
     simp only [lt_self_iff_false, r_storable, if_false, r_lit]
     norm_num
+
+/-- whatever is pushed, `StrainsVec` stores a value `≥ 0` -/
+theorem pushCanon_nonneg (x : ℝ) : 0 ≤ pushCanon x := by
+  unfold pushCanon
+  by_cases hx : 0 < x
+  · simp [hx]; exact hx.le
+  · simp only [r_storable, hx, if_false]; rw [r_zero]
+
+theorem exportPeaksV_nonneg {σ : Type} (st : StateV ℝ σ) : ∀ p ∈ exportPeaksV st, 0 ≤ p := by
+  intro p hp
+  unfold exportPeaksV at hp
+  obtain ⟨x, _, rfl⟩ := List.mem_map.mp hp
+  exact pushCanon_nonneg x
 
 /-- non-negative peaks are exported unchanged -/
 theorem exportPeaksV_of_nonneg {σ : Type} {st : StateV ℝ σ} (hp : ∀ p ∈ st.peaks, 0 ≤ p)
